@@ -240,6 +240,50 @@ static void describe(vf::Case& c, int cls, int pat, Index n, const In<S>& in)
     c.nontrivial = n >= 3 && in.nondiag;
 }
 
+// History: the decomposition objects are reused by their owners. After the checks above, the same object decomposes ANOTHER matrix (other size) and then
+// the target again: the second result for the target must be bit-identical to the first (nothing of the other matrix may survive). The draws are made at
+// the end of the case so that earlier tapes keep their meaning.
+template <typename S, typename Obj, typename Fetch>
+static void reuse_check(vf::Draw& d, vf::Case& c, Obj& obj, const Eigen::Matrix<S, Eigen::Dynamic, Eigen::Dynamic>& given, bool tridiag, Fetch fetch)
+{
+    typedef Eigen::Matrix<S, Eigen::Dynamic, Eigen::Dynamic> Mat;
+    if (!d.flag("reuse_after_other_matrix"))
+        return;
+    const Index n = given.rows();
+    const CMatL first = fetch(obj);
+    const Index m = (Index) d.range("other_n", 2, n + 3);  // the property quantifies over sizes >= 2 (TridiagEigen asserts on a 1x1 input)
+    Mat other = Mat::Zero(m, m);
+    for (Index j = 0; j < m; j++)
+        for (Index i = 0; i <= std::min<Index>(j + 1, m - 1); i++)
+            if (!tridiag || i + 1 >= j)
+                other(i, j) = (S) (ld) (((i * 5 + j * 3) % 7) - 3);
+    if (tridiag)
+        for (Index j = 0; j < m; j++)
+            for (Index i = 0; i < j; i++)
+                other(i, j) = other(j, i);
+    try
+    {
+        obj.compute(other);
+    }
+    catch (const std::runtime_error&)
+    {
+    }
+    bool threw = false;
+    try
+    {
+        obj.compute(given);
+    }
+    catch (const std::runtime_error&)
+    {
+        threw = true;
+    }
+    VF_CHECK(!threw, "reuse_changes_result", "the object decomposed the target, then a " << m << "x" << m << " matrix, and now fails on the target");
+    const CMatL second = fetch(obj);
+    VF_CHECK(vf::bits_equal(first, second), "reuse_changes_result", "the object returns other numbers for the target after it decomposed a " << m << "x" << m << " matrix in between (max diff "
+                                                                        << vf::num(first.rows() == second.rows() && first.cols() == second.cols() ? vf::maxabs(first - second) : (ld) -1) << ")");
+    c.cls("object_reused_after_other_matrix");
+}
+
 template <typename S>
 static void tridiag_case(vf::Draw& d, vf::Case& c, int pat, Index n)
 {
@@ -290,6 +334,7 @@ static void tridiag_case(vf::Draw& d, vf::Case& c, int pat, Index n)
         vf::report().stat("tridiag_eigenvalue_error/(n eps |T|)", (double) (worst / ((ld) n * eps * normT)));
         VF_CHECK(worst <= tol * normT, "eigenvalues", "sorted eigenvalues differ from the reference by " << vf::num(worst) << " > " << vf::num(tol * normT));
     }
+    reuse_check<S>(d, c, eig, in.given, true, [](Spectra::TridiagEigen<S>& o) { CMatL r(o.eigenvectors().rows() + 1, o.eigenvectors().cols()); r << vf::widen(o.eigenvalues()).transpose(), vf::widen(o.eigenvectors()); return r; });
 }
 
 // eigenvalues of the diagonal blocks of a quasi-triangular T, in order
@@ -393,6 +438,7 @@ static void schur_case(vf::Draw& d, vf::Case& c, int pat, Index n)
         any2 = any2 || b == 2;
     if (any2)
         c.cls("schur_has_2x2_block");
+    reuse_check<S>(d, c, schur, in.given, false, [](Spectra::UpperHessenbergSchur<S>& o) { CMatL r(2 * o.matrix_T().rows(), o.matrix_T().cols()); r << vf::widen(o.matrix_T()), vf::widen(o.matrix_U()); return r; });
 }
 
 template <typename S>
@@ -543,6 +589,7 @@ static void hesseig_case(vf::Draw& d, vf::Case& c, int pat, Index n)
     c.feat["residual_ratio"] = normH > 0 ? (double) (worst_res / ((ld) n * eps * normH)) : 0;
     VF_CHECK(worst_res <= tol * normH, "eigvec_residual", "||Hx - lambda x|| = " << vf::num(worst_res) << " for pair " << worst_i << " (lambda=" << ev[worst_i] << ") > " << vf::num(tol * normH)
                                                                                  << "; H=" << vf::show(in.given, 8));
+    reuse_check<S>(d, c, eig, in.given, false, [](Spectra::UpperHessenbergEigen<S>& o) { CMatL r(o.eigenvectors().rows() + 1, o.eigenvectors().cols()); r << vf::widen(o.eigenvalues()).transpose(), vf::widen(o.eigenvectors()); return r; });
 }
 
 template <typename S>
